@@ -40,7 +40,10 @@ func genH264Nal(c *RNG, typ int, size int) []byte {
 		size = 2
 	}
 	b := genNalBody(c, size)
-	b[0] = byte(typ) | byte(c.Intn(4))<<5 // F = 0
+	b[0] = byte(typ) | byte(c.Intn(4))<<5
+	if c.Intn(8) == 0 {
+		b[0] |= 0x80 // forbidden_zero_bit set (RFC 6184 5.3: a unit a MANE marked as damaged); it is part of the unit
+	}
 	if size >= 3 && b[1] == 0 && b[0] == 0 {
 		b[1] = 5
 	}
@@ -354,7 +357,11 @@ func genRfc6184Plan(c *RNG) TList {
 	other := func() byte {
 		for {
 			t := 1 + c.Intn(23)
-			return byte(t) | byte(c.Intn(4))<<5
+			f := byte(0)
+			if c.Intn(8) == 0 {
+				f = 0x80 // F set: "the information of the NAL unit type octet ... is conveyed in the F and NRI fields of the FU indicator"
+			}
+			return byte(t) | byte(c.Intn(4))<<5 | f
 		}
 	}
 	for k, kn := 0, 1+c.Intn(5); k < kn; k++ {
@@ -370,7 +377,7 @@ func genRfc6184Plan(c *RNG) TList {
 				b[0] = other()
 				us = append(us, TBytes(b))
 			}
-			plan = append(plan, TList{TI(1), TI(int64(c.Intn(4)) << 5), us})
+			plan = append(plan, TList{TI(1), TI(int64(c.Intn(8)) << 5), us})
 		default:
 			cs := TList{}
 			for f, fn := 0, 2+c.Intn(4); f < fn; f++ {
@@ -417,7 +424,7 @@ func rfc6184Encode(plan []Tok) (payloads [][]byte, units [][]byte) {
 				if i == len(cs)-1 {
 					fh |= 0x40
 				}
-				payloads = append(payloads, append([]byte{h&0x60 | 28, fh}, b...))
+				payloads = append(payloads, append([]byte{h&0xE0 | 28, fh}, b...))
 				unit = append(unit, b...)
 			}
 			units = append(units, unit)
